@@ -48,8 +48,8 @@ func (b built[G]) ParseFromLexer(pl *lexer.PeekingLexer, o ...participle.ParseOp
 	return v, err
 }
 func (b built[G]) Lex(f string, r io.Reader) ([]lexer.Token, error) { return b.p.Lex(f, r) }
-func (b built[G]) Lexer() lexer.Definition                           { return b.p.Lexer() }
-func (b built[G]) String() string                                    { return b.p.String() }
+func (b built[G]) Lexer() lexer.Definition                          { return b.p.Lexer() }
+func (b built[G]) String() string                                   { return b.p.String() }
 
 // Reg registers a grammar program whose root type is G. extra supplies the
 // options that need the concrete types (Union declarations).
